@@ -17,6 +17,10 @@ pub struct FaultCase {
     pub only: Option<Script>,
     /// enumerate every call index and byte offset
     pub exhaustive: bool,
+    /// enumerate every write call (all failure kinds, sticky and transient), no byte offsets: for files too large for
+    /// `exhaustive` whose interesting points are call boundaries
+    #[serde(default)]
+    pub every_call: bool,
 }
 
 struct Ref {
@@ -165,6 +169,31 @@ pub fn eval(c: &FaultCase) -> Outcome {
                 }
             }
         }
+    } else if c.every_call {
+        'calls: for call in 0..r.n_calls {
+            for kind in [0u8, 5, 6, 7] {
+                n_scripts += 1;
+                if !run_one(&mut o, Script::FailAtCall { call, kind }, nsamples >= 2 && call > 0) {
+                    break 'calls;
+                }
+            }
+            for kind in [0u8, 7] {
+                n_scripts += 1;
+                if !run_one(&mut o, Script::FailOnceAtCall { call, kind }, nsamples >= 2 && call > 0) {
+                    break 'calls;
+                }
+            }
+        }
+        // and a fault after exactly 2^k accepted bytes
+        for k in 10..=17u32 {
+            let offset = 1usize << k;
+            if offset < n {
+                n_scripts += 1;
+                if !run_one(&mut o, Script::FailAtByte { offset, kind: (k % 8) as u8 }, nsamples >= 2) {
+                    break;
+                }
+            }
+        }
     } else {
         // sampled fault points for long histories
         for k in 0..40usize {
@@ -236,14 +265,18 @@ fn strat(t: Tier) -> BoxedStrategy<FaultCase> {
         Tier::Thorough => (6, 6),
     };
     (small_case(maxv, maxa), vec(sched_strategy(), 4..12))
-        .prop_map(|(base, schedules)| FaultCase { base, schedules, only: None, exhaustive: true })
+        .prop_map(|(base, schedules)| FaultCase { base, schedules, only: None, exhaustive: true, every_call: false })
         .boxed()
 }
 
 fn strat_sampled(_t: Tier) -> BoxedStrategy<FaultCase> {
     (valid_case_strategy(30, 40), vec(sched_strategy(), 4..12))
-        .prop_map(|(base, schedules)| FaultCase { base, schedules, only: None, exhaustive: false })
+        .prop_map(|(base, schedules)| FaultCase { base, schedules, only: None, exhaustive: false, every_call: false })
         .boxed()
+}
+
+fn aimed_fault_cases(t: Tier) -> Vec<FaultCase> {
+    crate::scenario::aimed_cases(t).into_iter().map(|base| FaultCase { base, schedules: vec![(vec![0, 255, 100, 0, 200], None)], only: None, exhaustive: false, every_call: true }).collect()
 }
 
 fn long_fault_cases(_t: Tier) -> Vec<FaultCase> {
@@ -259,7 +292,7 @@ fn long_fault_cases(_t: Tier) -> Vec<FaultCase> {
     long_cases(false)
         .into_iter()
         .filter(|c| c.expand.as_ref().map(|e| e.nv + e.na <= 40_000).unwrap_or(true))
-        .map(|base| FaultCase { base, schedules: scheds.clone(), only: None, exhaustive: false })
+        .map(|base| FaultCase { base, schedules: scheds.clone(), only: None, exhaustive: false, every_call: false })
         .collect()
 }
 
@@ -282,6 +315,12 @@ pub fn def() -> PropertyDef {
             Box::new(PSub { name: "every_fault_point", quick: 600, thorough: 12000, strat, eval }),
             Box::new(PSub { name: "sampled_fault_points", quick: 1500, thorough: 60000, strat: strat_sampled, eval }),
             Box::new(LSub { name: "long_recordings", cases: long_fault_cases, eval, note: LONG_NOTE }),
+            Box::new(LSub {
+                name: "aimed_offsets",
+                cases: aimed_fault_cases,
+                eval,
+                note: "recordings built in two passes so that one sample ends exactly at file offset 4 KiB .. 128 KiB (powers of two), both layouts, all codecs; every write call fails (sticky and once, four kinds each), plus faults after exactly 2^k accepted bytes",
+            }),
         ],
     }
 }
